@@ -144,6 +144,8 @@ def c07_mix(d):
     return {"status": "confirmed" if abs(yf - exp) > tol else "refuted", "observed": obs, "expected": "q_f = q_0 + f*(q_1 - q_0)"}
   if d["clause"] == "f0":
     sur = x
+    if rep["class"] == "quantized_relu_po2":
+      sur = x if x >= 0 else Fraction(0)
     if rep["class"] == "quantized_relu":
       n = bits - (1 if rep.get("leaky") else 0)
       top = Fraction(2) ** integer - Fraction(2) ** (integer - n)
@@ -375,3 +377,77 @@ def c06_grad(d):
   if d["clause"] == "nonzero":
     return {"status": "confirmed" if gv == 0.0 else "refuted", "observed": obs, "expected": "non-zero gradient on the unclipped range"}
   return {"status": "confirmed" if abs(gv - exp) > 1e-4 * max(1.0, abs(exp)) else "refuted", "observed": obs}
+
+
+@replayer("c08")
+def c08(d):
+  import tensorflow as tf
+  from qkeras import quantizers
+  shims.install_learning_phase()
+  w = d["witness"]
+  rep = w.get("__replay__") or {}
+  x = f32(F(w.get("x", 0)))
+  us = [float(F(w[k])) for k in sorted(w) if k.startswith("u") and k[1:].isdigit() or k == "u"]
+  real_uniform = tf.random.uniform
+  it = iter(us)
+
+  def fake_uniform(shape=None, minval=0, maxval=None, **k):
+    try:
+      u = next(it)
+    except StopIteration:
+      u = 0.5
+    return tf.ones(shape, dtype=tf.float32) * u
+  clause = d["clause"]
+  try:
+    tf.random.uniform = fake_uniform
+    if rep.get("what") == "stochastic_round":
+      pr = float(rep["precision"])
+      y = Fraction(float(np.array(quantizers.stochastic_round(tf.constant([float(x)]), pr))[0]))
+      s = x / Fraction(pr)
+      fl = s.numerator // s.denominator
+      cl = fl if s == fl else fl + 1
+      code = y / Fraction(pr)
+      u = us[0] if us else 0.5
+      frac = s - fl
+      bad = {"adjacent": code not in (fl, cl), "threshold": code != (fl if frac < Fraction(u) else cl),
+             "fixed": s == fl and y != x, "unbiased": False, "one_draw": False}.get(clause, False)
+      return {"status": "confirmed" if bad else "refuted", "observed": {"x": str(x), "u": u, "result": str(y)}}
+    cls = rep.get("class")
+    if cls is None:
+      return {"status": "unsupported"}
+    C = getattr(quantizers, cls)
+    bits, integer = int(rep.get("bits", 4)), int(rep.get("integer", 0))
+
+    def mk(st):
+      return {"quantized_bits": lambda: C(bits, integer, 0, True, None, st),
+              "quantized_linear": lambda: C(bits, integer, 1, True, None, st),
+              "quantized_relu": lambda: C(bits, integer, 0, 0.0, st),
+              "quantized_tanh": lambda: C(bits, st),
+              "quantized_sigmoid": lambda: C(bits, False, False, st),
+              "quantized_po2": lambda: C(bits, None, st),
+              "quantized_relu_po2": lambda: C(bits, None, 0, st),
+              "binary": lambda: C(False, 2.0, st),
+              "stochastic_binary": lambda: (C(2.0) if st else quantizers.binary(False, 2.0)),
+              "stochastic_ternary": lambda: (C(2.0, 0.5) if st else quantizers.ternary(2.0, 0.5))}[cls]()
+    if clause == "phase0":
+      shims.PHASE[0] = 0
+      y1, y2 = apply(mk(True), [x])[0], apply(mk(False), [x])[0]
+      return {"status": "confirmed" if y1 != y2 else "refuted", "observed": {"x": str(x), "stochastic_cfg": str(y1), "nearest_cfg": str(y2)}}
+    shims.PHASE[0] = 1
+    y = apply(mk(True), [x])[0]
+    fmt = rep.get("format") or {}
+    unit, lo, hi, p = F(fmt["unit"]), F(fmt["lo"]), F(fmt["hi"]), F(fmt["p"])
+    fl = p.numerator // p.denominator
+    cl = fl if p == fl else fl + 1
+    kf, kc = min(max(fl, lo), hi), min(max(cl, lo), hi)
+    code = y / unit
+    obs = {"x": str(x), "u": us, "q(x)": str(y), "code": str(code), "p": str(p)}
+    if clause == "adjacent":
+      return {"status": "confirmed" if code not in (kf, kc) else "refuted", "observed": obs,
+              "expected": "one of the two codes adjacent to the clipped input"}
+    if clause == "fixed":
+      return {"status": "confirmed" if (p == fl and lo <= fl <= hi and code != p) else "refuted", "observed": obs}
+    return {"status": "unsupported"}
+  finally:
+    tf.random.uniform = real_uniform
+    shims.PHASE[0] = 0
